@@ -100,6 +100,17 @@ def run(c):
         c.cov["inconclusive"] += s["crashes"]
         c.cov["replayed_cases"] += s["calls"]
         open(tr, "a").write(open(trk).read())
+    # the same pair unified twice (solved holes are read back at their shifts, below binders and local definitions)
+    asz = 7 if c.quick else 8
+    sa2 = vf.tlc_generate("MC_Punch", vf.cfg_consts(MaxSize=asz, Skel=1, FreeVars=0, MaxIdx=3, TyFuel=400, Formers={"type", "int", "var", "lam", "let1"}, Ops={"sum"}, Lits={1}) +
+                          "INIT SInit\nNEXT BNext\nINVARIANTS Emit3\nCHECK_DEADLOCK FALSE\n", "punch-again-%d" % asz, timeout=3000, workers=10)
+    c.add_tlc(sa2, "pairs unified twice, hosts (x : type) => body over type / int / variables / functions / local definitions; generation")
+    tra = os.path.join(d, "trace-again.ndjson")
+    vf.gv(["record-unify", sa2["out"], tra, summ], timeout=3000)
+    s = json.load(open(summ))
+    c.cov["unify-again"] = {k: s[k] for k in s if k != "crashed"}
+    c.cov["replayed_cases"] += s["calls"]
+    open(tr, "a").write(open(tra).read())
     # larger hosts recorded from the real parser: occurs-check, single-punch and two-step configurations computed by TLC
     progs, hosts = os.path.join(d, "progs.jsonl"), os.path.join(d, "hosts.ndjson")
     nn = 1 if c.quick else 10
